@@ -7,6 +7,7 @@ run on the same bytes."""
 import json
 import os
 import random
+import re
 
 from .procs import Driver, Harness
 
@@ -44,9 +45,10 @@ def ld(tag, payload):
 
 
 class Gen:
-    def __init__(self, schema, rng):
+    def __init__(self, schema, rng, hints=()):
         self.msgs = schema["messages"]
         self.r = rng
+        self.hints = list(hints)     # integers named by attributes the schema does not model (e.g. `default = "100"`)
 
     def fields_of(self, ref):
         if ref in self.msgs:
@@ -55,6 +57,8 @@ class Gen:
 
     def scalar(self, kind):
         r = self.r
+        if self.hints and kind in ("uint64", "uint32", "int64", "int32") and r.random() < 0.4:
+            return r.choice(self.hints)
         if kind == "string":
             return r.choice(["", "a", "osmo1xyz", "ü", "x" * r.randrange(0, 40)])
         if kind == "bytes":
@@ -235,7 +239,20 @@ def run(per_type, seed, with_lean=True):
                 return [(f["tag"], f["kind"], f["label"], f.get("packed"), f.get("ref"), f.get("oneof")) for f in m["fields"]]
             suspects = {x["type"] for x in divs if x["kind"] == "prost-vs-extracted-schema"}
             suspects |= {k for k in compiled if k in base["messages"] and sig(base["messages"][k]) != sig(schema["messages"][k])}
-            gb = Gen(base, random.Random(seed + 17))
+            # fields carrying attributes outside the wire model (the table theorem `no_unmodelled_attributes` is broken):
+            # the messages that embed them are searched with the integers those attributes name among the values
+            hints = []
+            odd = set()
+            for k in compiled:
+                for f in schema["messages"][k]["fields"]:
+                    for a in f.get("unmodelled", []):
+                        odd.add(k)
+                        hints += [int(x) for x in re.findall(r"-?\d+", a)][:4]
+            if odd:
+                stats["unmodelled_attributes"] = sorted(odd)
+                users = {k for k in compiled if any(f.get("ref") in odd for f in schema["messages"][k]["fields"])}
+                suspects |= odd | set(sorted(users)[:40])
+            gb = Gen(base, random.Random(seed + 17), hints=hints + [0, 1])
             for k in sorted(suspects):
                 if k not in base["messages"]:
                     continue
